@@ -184,6 +184,10 @@ def run(ctx):
     K = 16 if thorough else 4
     ctx.mc("MC_FaceTopology", "MC_FaceTopology_quick.cfg")
     ctx.mc("MC_FaceAssemble", "MC_FaceAssemble_2x1.cfg" if thorough else "MC_FaceAssemble_1x2.cfg")
+    # which basic paddings of two axes commute (only 'fill' with two different values does not: the corner then holds
+    # the value of the axis padded last) - the reason the order of the pad axes is observable at all
+    ctx.mc("MC_PadCommute", "MC_PadCommute.cfg", workers=8)
+    ctx.mc("MC_PadCommute", "MC_PadCommute_refute.cfg", workers=2, expect_violation="Commutes")
     rng = random.Random(ctx.seed * 334214459 + 12)
     from ..core import setup_import_path
 
